@@ -13,9 +13,13 @@ def run(ctx):
     L = 5 if ctx.quick else 6
     nsh = vlib.NCPU
     shards = [["exh", L, i, nsh] for i in range(nsh)] + [["rand", ctx.seed * 100 + i, 1500 if ctx.quick else 20000] for i in range(4)]
+    # the decoder's further options: 48 configurations (3 modes x plus x %u decoding x encoded-NUL x raw-NUL termination)
+    # over every sequence of <= A atoms out of 16 (valid / overlong / best-fit / unmapped / NUL / invalid / short %u forms, ...)
+    A = 2 if ctx.quick else 3
+    shards += [["dec", A, i, 8] for i in range(8)]
     total, distinct, bad, files = vlib.pattern_f(ctx, "san", "fn_urlenc", shards, "UrlEncodedRows", "UrlEncodedRows.cfg")
     ctx.violations += bad
-    expected = sum(7 ** n for n in range(L + 1)) * 6
+    expected = sum(7 ** n for n in range(L + 1)) * 6 + sum(16 ** n for n in range(1, A + 1)) * 48
     vac = None
     if distinct < expected:
         vac = "recorded %d distinct rows, the declared space has at least %d" % (distinct, expected)
@@ -34,7 +38,9 @@ def run(ctx):
         "evaluations": evals, "distinct_nontrivial": distinct,
         "rule": "rows = (input, invalid-%% mode, plus setting, route) with one recorded result per single cut; exhaustive over "
                 "strings of length <= %d over {a = & %% + 1 NUL} (route direct; body/query for length <= %d) plus seeded random "
-                "inputs over all bytes with 1-byte and random multi-cut chunkings; distinct = distinct (in,mode,plus,via) as counted by TLC" % (L, L - 1),
+                "inputs over all bytes with 1-byte and random multi-cut chunkings; plus rows kind=dec: 'k=' + every sequence of <= %d atoms out of 16 "
+                "percent/%%u/NUL forms under all 48 decoder configurations (mode x plus x u_encoding_decode x nul_encoded_terminates x "
+                "nul_raw_terminates), whole and two cut sets; distinct = distinct (in,mode,plus,via) as counted by TLC" % (L, L - 1, A),
         "samples": samples, "exhaustive": True,
         "exhaustive_space": "all strings <= %d over 7 symbols x every single cut x 3 modes x 2 plus settings (direct route)" % L,
         "model": "UrlEncoded.tla: streaming model vs RefPairs, every chunking, MaxLen %d" % (4 if ctx.quick else 6),
